@@ -110,12 +110,15 @@ func genDoc(r *rng.R, base string) *yDoc {
 	return d
 }
 
-var numEdges = []string{"0", "1", "2", "31", "32", "255", "256", "4294967295", "4294967296", "18446744073709551615", "18446744073709551616", "-1", "1.5", "\"3\"", "abc", "0x10", "true", "~", "[1]", "{a: 1}"}
+var numEdges = []string{"0", "1", "2", "31", "32", "255", "256", "257", "512", "65535", "65536", "16776960", "16777215", "16777216", "4294967295", "4294967296", "18446744073709551615", "18446744073709551616", "-1", "1.5", "\"3\"", "abc", "0x10", "true", "~", "[1]", "{a: 1}"}
 
 // mutate returns whether the document must fail to DECODE for a reason the harness knows
 // (unknown key); other decode failures (type errors) are discovered by trying.
 func mutate(r *rng.R, d *yDoc) (mustFailDecode bool) {
-	k := r.Intn(20)
+	k := r.Intn(22)
+	if k >= 20 {
+		k = 12 // numeric edge values get three shares
+	}
 	pickSet := func() *ySet {
 		if len(d.sets) == 0 {
 			return nil
@@ -185,6 +188,10 @@ func mutate(r *rng.R, d *yDoc) (mustFailDecode bool) {
 			if s.argon != nil {
 				f := s.argonOrd[r.Intn(len(s.argonOrd))]
 				s.argon[f] = numEdges[r.Intn(len(numEdges))]
+				if _, has := s.argon["threads"]; has && r.Intn(3) == 0 {
+					// the narrowest field: values around and beyond its width, multiples of it
+					s.argon["threads"] = []string{"255", "256", "257", "512", "1024", "65536", "16776960", "4294967040"}[r.Intn(8)]
+				}
 			} else if s.scrypt != nil {
 				f := []string{"cost", "r", "p"}[r.Intn(3)]
 				s.scrypt[f] = numEdges[r.Intn(len(numEdges))]
@@ -240,7 +247,8 @@ func suiteC18(c *ctx) {
 		os.MkdirAll(base, 0700)
 		d := genDoc(r, base)
 		mustFail := false
-		for m := r.Intn(3); m >= 0; m-- {
+		// mostly ONE fault per document (a second fault hides what the first would show), sometimes two or three
+		for m := []int{0, 0, 0, 0, 0, 0, 1, 1, 1, 2}[r.Intn(10)]; m >= 0; m-- {
 			if mutate(r, d) {
 				mustFail = true
 			}
